@@ -727,3 +727,278 @@ Example rpoe_example :
   isexc (cls_of (handling_orig plain_cls) 0) = true /\ 0 < next (handling_orig plain_cls) /\
   isexc (cls_of (handling_orig (mkcls 2 true false)) 0) = false.
 Proof. split; [reflexivity|]. split; [cbn; lia|reflexivity]. Qed.
+
+(* ------------------------------------------------------------------ the original traceback is never lost (all bodies) *)
+
+Definition tb_suffix (T t : list frame) : Prop := exists pre, t = pre ++ T.
+(* object o still carries T at the end of its traceback, and so does whatever context s saved for it *)
+Definition keeps (o : nat) (T : list frame) (s : sare) (st : state) : Prop :=
+  tb_suffix T (tb_of st o) /\ (value s = Some o -> tb_suffix T (tb s)).
+
+Lemma tb_suffix_refl : forall T, tb_suffix T T.
+Proof. intro T. exists []. reflexivity. Qed.
+Lemma tb_suffix_cons : forall T t f, tb_suffix T t -> tb_suffix T (f :: t).
+Proof. intros T t f [pre H]. exists (f :: pre). rewrite H. reflexivity. Qed.
+
+Lemma tb_of_set_tb_other : forall i t st j, j <> i -> tb_of (set_tb i t st) j = tb_of st j.
+Proof. intros. unfold tb_of, set_tb. cbn. rewrite upd_other by assumption. reflexivity. Qed.
+Lemma tb_of_alloc_old : forall x st o, o < next st -> tb_of (fst (alloc x st)) o = tb_of st o.
+Proof. intros. unfold tb_of, alloc. cbn. rewrite upd_other by lia. reflexivity. Qed.
+
+Lemma add_frame_suffix : forall T f i st o, tb_suffix T (tb_of st o) -> tb_suffix T (tb_of (add_frame f i st) o).
+Proof.
+  intros T f i st o H. destruct (Nat.eq_dec o i) as [->|N].
+  - rewrite tb_of_add_frame. apply tb_suffix_cons. exact H.
+  - rewrite tb_of_add_frame_other by assumption. exact H.
+Qed.
+Lemma raise_value_suffix : forall T fn i t st o,
+  tb_suffix T (tb_of st o) -> (i = o -> tb_suffix T t) -> tb_suffix T (tb_of (raise_value fn i t st) o).
+Proof.
+  intros T fn i t st o H Ht. unfold raise_value. destruct (tb_eqb _ _).
+  - apply add_frame_suffix. exact H.
+  - apply add_frame_suffix. destruct (Nat.eq_dec o i) as [->|N].
+    + rewrite tb_of_set_tb. apply Ht. reflexivity.
+    + rewrite tb_of_set_tb_other by assumption. exact H.
+Qed.
+Lemma alloc_suffix : forall T x st o, o < next st -> tb_suffix T (tb_of st o) -> tb_suffix T (tb_of (fst (alloc x st)) o).
+Proof. intros. rewrite tb_of_alloc_old by assumption. assumption. Qed.
+
+Lemma force_hand_keeps : forall o T s st s' st' i,
+  o < next st -> keeps o T s st -> force_hand s st = (s', st', i) -> keeps o T s' st'.
+Proof.
+  intros o T s st s' st' i Ho [K1 K2] H. unfold force_hand in H.
+  destruct (value s) as [v|] eqn:V.
+  - inversion H; subst. split; [|cbn; discriminate].
+    apply raise_value_suffix; [exact K1|]. intros ->. apply K2. reflexivity.
+  - destruct (type_ s) as [c|].
+    + destruct (ctor0 c); inversion H; subst.
+      * split; [|cbn; discriminate].
+        apply raise_value_suffix; [apply (alloc_suffix T (mkobj c [] ONew None)); assumption|].
+        intro E. cbn in Ho. lia.
+      * split; [|cbn; discriminate]. apply (alloc_suffix T (mkobj cls_type [FHelper FnForce KCtor] ONew None)); assumption.
+    + inversion H; subst. split.
+      * apply (alloc_suffix T (mkobj cls_runtime [FHelper FnForce KRt] ONew None)); assumption.
+      * rewrite V. discriminate.
+Qed.
+
+Lemma capture_hand_keeps : forall o T chk s st s' st' r,
+  o < next st -> keeps o T s st -> capture_hand chk s st = (s', st', r) -> keeps o T s' st'.
+Proof.
+  intros o T chk s st s' st' r Ho [K1 K2] H. unfold capture_hand in H.
+  destruct (hstack st) as [|i rest].
+  - destruct chk; inversion H; subst.
+    + split; [apply (alloc_suffix T (mkobj cls_runtime [FHelper FnCapture KRt] ONew None)); assumption|exact K2].
+    + split; [exact K1|cbn; discriminate].
+  - inversion H; subst. split; [exact K1|]. cbn. intro E. inversion E; subst. exact K1.
+Qed.
+
+Lemma exit_hand_keeps : forall o T wf s st out s' st' out',
+  o < next st -> keeps o T s st -> exit_hand wf s st out = (s', st', out') -> keeps o T s' st'.
+Proof.
+  intros o T wf s st out s' st' out' Ho K H. unfold exit_hand in H. destruct out as [|i].
+  - destruct (reraise s).
+    + destruct (force_hand s st) as [[s1 st1] j] eqn:F. inversion H; subst.
+      destruct (force_hand_keeps _ _ _ _ _ _ _ Ho K F) as [K1 K2].
+      split; [apply add_frame_suffix, add_frame_suffix; exact K1|exact K2].
+    + inversion H; subst. exact K.
+  - destruct K as [K1 K2]. destruct (reraise s); inversion H; subst; split; assumption.
+Qed.
+
+Lemma keeps_state_only : forall o T s s' st, keeps o T s st -> (value s' = Some o -> tb_suffix T (tb s')) -> keeps o T s' st.
+Proof. intros o T s s' st [K1 _] H. split; assumption. Qed.
+
+Lemma with_sare_keeps : forall o T r0 lab wf block st s3 st3 ob out s,
+  (forall s st s' st' x, o < next st -> keeps o T s st -> block s st = (s', st', x) -> keeps o T s' st' /\ stable st st') ->
+  o < next st -> keeps o T s st ->
+  with_sare r0 lab wf block st = (s3, st3, ob, out) -> keeps o T s3 st3.
+Proof.
+  intros o T r0 lab wf block st s3 st3 ob out s HB Ho K H. unfold with_sare in H.
+  unfold sare_enter in H. rewrite capture_equiv, sare_init_equiv in H.
+  destruct (capture_hand gen_enter_check (mksare r0 None None [] lab) st) as [[s1 st1] r] eqn:C.
+  assert (K0 : keeps o T (mksare r0 None None [] lab) st) by (destruct K as [K1 _]; split; [exact K1|cbn; discriminate]).
+  pose proof (capture_hand_keeps _ _ _ _ _ _ _ _ Ho K0 C) as K1.
+  pose proof (capture_hand_stable _ _ _ _ _ _ C) as [N1 _].
+  destruct r as [j|].
+  - inversion H; subst. destruct K1 as [A B]. split; [apply add_frame_suffix, add_frame_suffix; exact A|exact B].
+  - destruct (block s1 st1) as [[s2 st2] o2] eqn:B.
+    assert (Ho1 : o < next st1) by lia.
+    destruct (HB _ _ _ _ _ Ho1 K1 B) as [K2 [N2 _]].
+    rewrite exit_equiv in H.
+    destruct (exit_hand wf s2 st2 o2) as [[s4 st4] o4] eqn:X. inversion H; subst.
+    eapply exit_hand_keeps; [|exact K2|exact X]. lia.
+Qed.
+
+Lemma keeps_push : forall o T s st i, keeps o T s st -> keeps o T s (push i st).
+Proof. intros o T s st i K. exact K. Qed.
+Lemma keeps_pop : forall o T s st, keeps o T s st -> keeps o T s (pop st).
+Proof. intros o T s st K. exact K. Qed.
+
+(* Whatever the body does — K13 misuse included — an existing exception object never loses the traceback it
+   had: T stays a suffix of o's traceback, and of the traceback any context saved for o.  Induction, no bound. *)
+Lemma exec_keeps_traceback : forall b o T s st s' st' out,
+  o < next st -> keeps o T s st -> exec b s st = (s', st', out) -> keeps o T s' st'.
+Proof.
+  induction b as [|c k|c k l|v|a IHa b IHb|a IHa h IHh|r0 l b IHb|r0 b IHb|l|l|p l b IHb|p a l];
+    intros o T s st s' st' out Ho K H; cbn [exec] in H.
+  - inversion H; subst. exact K.
+  - inversion H; subst. destruct K as [K1 K2]. split; [|exact K2].
+    apply (alloc_suffix T (mkobj c (FProg 1 :: FOrig :: pre_tb k) (OSite 0) None)); assumption.
+  - inversion H; subst. destruct K as [K1 K2]. split; [|exact K2].
+    apply (alloc_suffix T (mkobj c (FProg l :: pre_tb k) (OSite l) None)); assumption.
+  - inversion H; subst. exact K.
+  - destruct (exec a s st) as [[s1 st1] o1] eqn:A.
+    pose proof (IHa _ _ _ _ _ _ _ Ho K A) as K1. pose proof (exec_stable _ _ _ _ _ _ A) as [N1 _].
+    destruct o1.
+    + eapply IHb; [|exact K1|exact H]. lia.
+    + inversion H; subst. exact K1.
+  - destruct (exec a s st) as [[s1 st1] o1] eqn:A.
+    pose proof (IHa _ _ _ _ _ _ _ Ho K A) as K1. pose proof (exec_stable _ _ _ _ _ _ A) as [N1 _].
+    destruct o1 as [|i].
+    + inversion H; subst. exact K1.
+    + destruct (exec h s1 (push i st1)) as [[s2 st2] o2] eqn:B. inversion H; subst.
+      apply keeps_pop. eapply IHh; [|apply keeps_push; exact K1|exact B]. cbn. lia.
+  - destruct (with_sare r0 l (FProg l) (fun s' st' => exec b s' st') st) as [[[s3 st3] ob] o3] eqn:W.
+    inversion H; subst.
+    assert (K3 : keeps o T s3 st').
+    { eapply (with_sare_keeps o T); [|exact Ho|exact K|exact W].
+      intros s0 st0 s0' st0' x Ho0 K0 E. split; [eapply IHb; eassumption|eapply exec_stable; eassumption]. }
+    destruct K as [_ K2]. destruct K3 as [K31 _]. split; assumption.
+  - destruct (exec b (sare_new r0 2 st) st) as [[s1 st1] o1] eqn:B. inversion H; subst.
+    assert (K0 : keeps o T (sare_new r0 2 st) st) by (destruct K as [K1 _]; split; [exact K1|cbn; discriminate]).
+    destruct (IHb _ _ _ _ _ _ _ Ho K0 B) as [A _]. destruct K as [_ K2]. split; assumption.
+  - rewrite do_force_equiv in H. destruct (force_hand s st) as [[s1 st1] i] eqn:F. inversion H; subst.
+    destruct (force_hand_keeps _ _ _ _ _ _ _ Ho K F) as [A B]. split; [apply add_frame_suffix; exact A|exact B].
+  - unfold do_capture_stmt in H. rewrite capture_equiv in H.
+    destruct (capture_hand gen_capture_default_check s st) as [[s1 st1] r] eqn:C.
+    destruct (capture_hand_keeps _ _ _ _ _ _ _ _ Ho K C) as [A B].
+    destruct r; inversion H; subst; split; try assumption. apply add_frame_suffix; exact A.
+  - destruct (exec b s st) as [[s1 st1] o1] eqn:B.
+    pose proof (IHb _ _ _ _ _ _ _ Ho K B) as [A1 A2]. pose proof (exec_stable _ _ _ _ _ _ B) as [N1 _].
+    rewrite filt_exit_equiv in H. unfold filt_exit_hand in H.
+    destruct o1 as [|i]; [inversion H; subst; split; assumption|].
+    destruct (pv p _); inversion H; subst; try (split; assumption).
+    split; [|exact A2]. apply add_frame_suffix. apply (alloc_suffix T (pred_exc p FnFiltExit)); [lia|exact A1].
+  - destruct K as [K1 K2].
+    assert (A : exists st1 x, next st <= next st1 /\ tb_suffix T (tb_of st1 o) /\
+        match do_filt_call p x s st1 with
+        | (st2, Some j) => (s, add_frame (FProg l) j st2, Raised j)
+        | (st2, None) => (s, st2, Normal)
+        end = (s', st', out)).
+    { destruct a as [|c m| |i].
+      - exists st, (hd_error (hstack st)). split; [lia|]. split; [exact K1|exact H].
+      - exists (fst (alloc (mkobj c [] (OSite m) None) st)), (Some (next st)).
+        split; [cbn; lia|]. split; [apply alloc_suffix; assumption|exact H].
+      - exists st, None. split; [lia|]. split; [exact K1|exact H].
+      - exists st, (Some i). split; [lia|]. split; [exact K1|exact H]. }
+    destruct A as [st1 [x [N1 [S1 A]]]]. rewrite filt_call_equiv in A. unfold filt_call_hand in A.
+    assert (Ho1 : o < next st1) by lia.
+    destruct (pv p _).
+    + destruct (opt_nat_eqb _ _).
+      * destruct (hd_error (hstack st1)) as [i|]; inversion A; subst; split; try exact K2.
+        -- apply add_frame_suffix, raise_value_suffix; [exact S1|]. intros ->. exact S1.
+        -- apply add_frame_suffix. apply (alloc_suffix T (mkobj cls_type [FHelper FnFiltCall KCtor] ONew None)); assumption.
+      * destruct x as [i|]; inversion A; subst; split; try exact K2.
+        -- apply add_frame_suffix, add_frame_suffix. exact S1.
+        -- apply add_frame_suffix. apply (alloc_suffix T (mkobj cls_type [FHelper FnFiltCall KVal] ONew None)); assumption.
+    + inversion A; subst. split; [exact S1|exact K2].
+    + inversion A; subst. split; [|exact K2].
+      apply add_frame_suffix. apply (alloc_suffix T (pred_exc p FnFiltCall)); assumption.
+Qed.
+
+(* ------------------------------------------------------------------ the context object used again after its with block *)
+
+(* what force_reraise() does on a context that still holds o with traceback T0 *)
+Lemma do_force_saved : forall wf s st o,
+  value s = Some o ->
+  exists s' st', do_force wf s st = (s', st', Raised o) /\ stable st st' /\
+                 exists k, (k = KVal \/ k = KWtb) /\ tb_of st' o = wf :: FHelper FnForce k :: tb s.
+Proof.
+  intros wf s st o V. rewrite do_force_equiv. unfold force_hand. rewrite V.
+  eexists. eexists. split; [reflexivity|]. split.
+  - eapply stable_trans; [apply raise_value_stable|apply add_frame_stable].
+  - destruct (raise_value_tb FnForce o (tb s) st) as [k [Hk Tk]]. exists k. split; [exact Hk|].
+    rewrite tb_of_add_frame, Tk. reflexivity.
+Qed.
+
+(* with ctx: body  ends normally with the flag off (nothing raised); a later ctx.force_reraise() raises the
+   exception saved on entry: same object, traceback = the one captured on entry plus the two frames *)
+Lemma sare_post_block_force_lemma : forall r0 lab wf wf' b st o rest s3 st3,
+  hstack st = o :: rest -> o < next st -> direct_free0 b = true ->
+  with_sare r0 lab wf (fun s st => exec b s st) st = (s3, st3, Normal, Normal) ->
+  exists s' st', do_force wf' s3 st3 = (s', st', Raised o) /\ same_object st st' o /\
+                 exists k, (k = KVal \/ k = KWtb) /\ tb_of st' o = wf' :: FHelper FnForce k :: tb_of st o.
+Proof.
+  intros r0 lab wf wf' b st o rest s3 st3 HS Ho D W.
+  rewrite (with_sare_unfold _ _ _ _ _ _ _ HS) in W.
+  destruct (exec b (entered r0 lab st o) st) as [[s2 st2] ob] eqn:E.
+  unfold exit_hand in W. destruct ob as [|x]; [|inversion W].
+  destruct (reraise s2) eqn:F.
+  - destruct (force_hand s2 st2) as [[sa sta] j]. inversion W.
+  - inversion W; subst. clear W.
+    pose proof (exec_keeps_capture _ _ _ _ _ _ D E) as [_ [Hv [Hb _]]]. cbn in Hv, Hb.
+    destruct (do_force_saved wf' s3 st3 o Hv) as [s' [st' [Q [S [k [Hk Tk]]]]]].
+    exists s', st'. split; [exact Q|]. split.
+    + apply stable_same_object; [|exact Ho]. eapply stable_trans; [exact (exec_stable _ _ _ _ _ _ E)|exact S].
+    + exists k. split; [exact Hk|]. rewrite Tk, Hb. reflexivity.
+Qed.
+
+(* the block raised (its exception propagated out of the with statement and was handled by the caller);
+   a later ctx.force_reraise() still raises the exception saved on entry *)
+Lemma sare_post_raise_force_lemma : forall r0 lab wf wf' b st o rest s3 st3 x out',
+  hstack st = o :: rest -> o < next st -> direct_free0 b = true ->
+  with_sare r0 lab wf (fun s st => exec b s st) st = (s3, st3, Raised x, out') ->
+  exists s' st', do_force wf' s3 (pop (push x st3)) = (s', st', Raised o) /\ same_object st st' o /\
+                 exists k, (k = KVal \/ k = KWtb) /\ tb_of st' o = wf' :: FHelper FnForce k :: tb_of st o.
+Proof.
+  intros r0 lab wf wf' b st o rest s3 st3 x out' HS Ho D W. rewrite pop_push.
+  destruct (sare_body_raises_lemma _ _ _ _ _ _ _ _ _ _ _ HS W) as [st2 [E [_ [_ HD]]]].
+  destruct (HD D) as [_ [_ [Hv Hb]]].
+  destruct (do_force_saved wf' s3 st3 o Hv) as [s' [st' [Q [S [k [Hk Tk]]]]]].
+  exists s', st'. split; [exact Q|]. split.
+  - apply stable_same_object; [|exact Ho].
+    eapply stable_trans; [|exact S].
+    eapply with_sare_stable; [|exact W]. intros; eapply exec_stable; eassumption.
+  - exists k. split; [exact Hk|]. rewrite Tk, Hb. reflexivity.
+Qed.
+
+(* ctx.capture(); ctx.force_reraise() on ANY context (fresh, or re-used after a with block with any body and
+   any outcome) while o is being handled: o is raised, the same object, its traceback just extended *)
+Lemma capture_then_force_lemma : forall wfc wf s st o rest,
+  hstack st = o :: rest ->
+  exists s1 s' st', do_capture_stmt wfc s st = (s1, st, Normal) /\
+                    do_force wf s1 st = (s', st', Raised o) /\ stable st st' /\
+                    tb_of st' o = wf :: FHelper FnForce KVal :: tb_of st o.
+Proof.
+  intros wfc wf s st o rest HS. unfold do_capture_stmt. rewrite capture_equiv. unfold capture_hand. rewrite HS.
+  eexists. eexists. eexists. split; [reflexivity|]. rewrite do_force_equiv. unfold force_hand. cbn [value tb].
+  split; [reflexivity|]. split.
+  - eapply stable_trans; [apply raise_value_stable|apply add_frame_stable].
+  - rewrite tb_of_add_frame. unfold raise_value. rewrite tb_eqb_refl, tb_of_add_frame. reflexivity.
+Qed.
+
+(* re-use after a with block, whatever its body (K13 misuse included) and outcome: the original traceback T
+   is still at the end of what comes out *)
+Lemma sare_post_capture_force_lemma : forall r0 lab wf wfc wf' b st o rest s3 st3 ob out' T,
+  hstack st = o :: rest -> o < next st -> tb_suffix T (tb_of st o) ->
+  with_sare r0 lab wf (fun s st => exec b s st) st = (s3, st3, ob, out') ->
+  exists s1 s' st', do_capture_stmt wfc s3 st3 = (s1, st3, Normal) /\
+                    do_force wf' s1 st3 = (s', st', Raised o) /\ same_object st st' o /\
+                    tb_suffix T (tb_of st' o).
+Proof.
+  intros r0 lab wf wfc wf' b st o rest s3 st3 ob out' T HS Ho HT W.
+  assert (S3 : stable st st3) by (eapply with_sare_stable; [|exact W]; intros; eapply exec_stable; eassumption).
+  assert (HS3 : hstack st3 = o :: rest) by (destruct S3 as [_ [H _]]; congruence).
+  assert (K3 : keeps o T s3 st3).
+  { eapply (with_sare_keeps o T _ _ _ _ _ _ _ _ _ (sare_blank 0)); [|exact Ho| |exact W].
+    - intros s0 st0 s0' st0' x Ho0 K0 E. split; [eapply exec_keeps_traceback; eassumption|eapply exec_stable; eassumption].
+    - split; [exact HT|cbn; discriminate]. }
+  destruct (capture_then_force_lemma wfc wf' s3 st3 o rest HS3) as [s1 [s' [st' [C [F [S Tb]]]]]].
+  exists s1, s', st'. split; [exact C|]. split; [exact F|]. split.
+  - apply stable_same_object; [|exact Ho]. eapply stable_trans; eassumption.
+  - rewrite Tb. apply tb_suffix_cons, tb_suffix_cons. destruct K3 as [A _]. exact A.
+Qed.
+
+Example sare_post_block_example :
+  exists s3 st3, with_sare false 2 (FProg 2) (fun s st => exec (Try (RaiseNew mand_cls 0 10) Noop) s st)
+                           (handling_orig mand_cls) = (s3, st3, Normal, Normal).
+Proof. eexists. eexists. vm_compute. reflexivity. Qed.
